@@ -2,6 +2,6 @@
    Extract Inductive directives for bool, option, unit, list, prod, sumbool,
    sumor); Z, N, positive, nat and byte stay extracted inductives. *)
 From Coq Require Extraction ExtrOcamlBasic.
-From SQ Require Import Model.Base Model.Header Model.Low Model.DbState Model.Lock Model.Crash Model.SqlParse Model.RowScan Model.Run Model.Driver Model.Schema Model.Tokenizer Model.ParseBudget.
+From SQ Require Import Model.Base Model.Header Model.Low Model.DbState Model.Lock Model.Crash Model.SqlParse Model.RowScan Model.Run Model.Driver Model.Schema Model.Tokenizer Model.ParseBudget Model.E2E.
 Extraction Language OCaml.
-Extraction "model.ml" run_line run_line_with openp open_page init_state rlock Lock.run Lock.do_step Crash.phases SqlParse.parse_tokens SqlParse.show_outcome RowScan.scan_args Run.read_value Driver.drv_outcomes Schema.schema_of_tokens Tokenizer.tokenize Tokenizer.show_tokout Tokenizer.parse_string Tokenizer.parse_sql ParseBudget.parse_budget parse_header h_pagesize show_err b2z z2b.
+Extraction "model.ml" run_line run_line_with E2E.run_line_e2e openp open_page init_state rlock Lock.run Lock.do_step Crash.phases SqlParse.parse_tokens SqlParse.show_outcome RowScan.scan_args Run.read_value Driver.drv_outcomes Schema.schema_of_tokens Tokenizer.tokenize Tokenizer.show_tokout Tokenizer.parse_string Tokenizer.parse_sql ParseBudget.parse_budget parse_header h_pagesize show_err b2z z2b.
